@@ -135,6 +135,93 @@ theorem find?_perm_unique {l l' : List α} (hp : l.Perm l') (p : α → Bool)
       have hb : b ∈ l := hp.mem_iff.2 (List.mem_of_find?_eq_some h')
       rw [hu a ha b hb hpa (List.find?_some h')]
 
+/-! ### The relation "same up to order and up to which error" is a congruence for appending folds -/
+
+theorem RelOut.refl (r : Except ε (List β)) : RelOut r r := by
+  cases r with
+  | ok l => exact Or.inl ⟨l, l, rfl, rfl, List.Perm.refl _⟩
+  | error w => exact Or.inr ⟨w, w, rfl, rfl⟩
+
+theorem RelOut.symm {r r' : Except ε (List β)} (h : RelOut r r') : RelOut r' r := by
+  rcases h with ⟨l, l', h1, h2, hp⟩ | ⟨w, w', h1, h2⟩
+  · exact Or.inl ⟨l', l, h2, h1, hp.symm⟩
+  · exact Or.inr ⟨w', w, h2, h1⟩
+
+theorem RelOut.trans {r r' r'' : Except ε (List β)} (h : RelOut r r') (h' : RelOut r' r'') : RelOut r r'' := by
+  rcases h with ⟨l, l', h1, h2, hp⟩ | ⟨w, w', h1, h2⟩
+  · rcases h' with ⟨m, m', k1, k2, kp⟩ | ⟨v, v', k1, k2⟩
+    · rw [h2] at k1; cases k1
+      exact Or.inl ⟨l, m', h1, k2, hp.trans kp⟩
+    · rw [h2] at k1; cases k1
+  · rcases h' with ⟨m, m', k1, k2, kp⟩ | ⟨v, v', k1, k2⟩
+    · rw [h2] at k1; cases k1
+    · exact Or.inr ⟨w, v', h1, k2⟩
+
+theorem RelOut.of_eq {r r' : Except ε (List β)} (h : r = r') : RelOut r r' := h ▸ RelOut.refl r
+
+theorem mem_errsL {out : α → Except ε (List β)} {l : List α} {w : ε} :
+    w ∈ errsL out l ↔ ∃ a ∈ l, out a = .error w := by
+  unfold errsL
+  rw [List.mem_filterMap]
+  constructor
+  · rintro ⟨a, ha, h⟩
+    refine ⟨a, ha, ?_⟩
+    split at h
+    · cases h; assumption
+    · cases h
+  · rintro ⟨a, ha, h⟩
+    exact ⟨a, ha, by rw [h]⟩
+
+/-- Folds of appending steps over permuted lists whose steps are related element by element are related. -/
+theorem relOut_foldlM {f f' : List β → α → Except ε (List β)} {l l' : List α} (hp : l.Perm l')
+    (h : ∀ a ∈ l, App (fun acc => f acc a)) (h' : ∀ a ∈ l', App (fun acc => f' acc a))
+    (hff : ∀ a ∈ l, RelOut (f [] a) (f' [] a)) : RelOut (l.foldlM f []) (l'.foldlM f' []) := by
+  rw [foldlM_app f l h, foldlM_app f' l' h']
+  have hk : (oksL (fun a => f [] a) l).Perm (oksL (fun a => f' [] a) l') := by
+    refine List.Perm.trans (List.Perm.flatMap_left _ fun a ha => ?_) (hp.flatMap_right _)
+    rcases hff a ha with ⟨r, r', h1, h2, hr⟩ | ⟨w, w', h1, h2⟩
+    · simp only [h1, h2]; exact hr
+    · simp only [h1, h2]; exact List.Perm.refl _
+  cases h1 : errsL (fun a => f [] a) l with
+  | nil =>
+    cases h2 : errsL (fun a => f' [] a) l' with
+    | nil => exact Or.inl ⟨_, _, rfl, rfl, by simpa using hk⟩
+    | cons w' ws' =>
+      exfalso
+      obtain ⟨a, ha, hw⟩ := mem_errsL.1 (h2 ▸ List.mem_cons_self : w' ∈ errsL (fun a => f' [] a) l')
+      have ha' := hp.mem_iff.2 ha
+      rcases hff a ha' with ⟨r, r', _, k2, _⟩ | ⟨w, _, k1, _⟩
+      · rw [hw] at k2; cases k2
+      · have : w ∈ errsL (fun a => f [] a) l := mem_errsL.2 ⟨a, ha', k1⟩
+        rw [h1] at this; cases this
+  | cons w ws =>
+    cases h2 : errsL (fun a => f' [] a) l' with
+    | nil =>
+      exfalso
+      obtain ⟨a, ha, hw⟩ := mem_errsL.1 (h1 ▸ List.mem_cons_self : w ∈ errsL (fun a => f [] a) l)
+      rcases hff a ha with ⟨r, r', k1, _, _⟩ | ⟨_, w', _, k2⟩
+      · rw [hw] at k1; cases k1
+      · have : w' ∈ errsL (fun a => f' [] a) l' := mem_errsL.2 ⟨a, hp.mem_iff.1 ha, k2⟩
+        rw [h2] at this; cases this
+    | cons w' ws' => exact Or.inr ⟨w, w', rfl, rfl⟩
+
+theorem relOut_bind {r r' : Except ε (List β)} {G G' : List β → Except ε (List β)} (hG : App G) (hG' : App G')
+    (h1 : RelOut r r') (h2 : RelOut (G []) (G' [])) : RelOut (r >>= G) (r' >>= G') := by
+  rcases h1 with ⟨r, r', e1, e2, hr⟩ | ⟨w, w', e1, e2⟩
+  · rw [e1, e2]
+    show RelOut (G r) (G' r')
+    rw [hG r, hG' r']
+    rcases h2 with ⟨s, s', k1, k2, hs⟩ | ⟨v, v', k1, k2⟩
+    · rw [k1, k2]; exact Or.inl ⟨_, _, rfl, rfl, hr.append hs⟩
+    · rw [k1, k2]; exact Or.inr ⟨v, v', rfl, rfl⟩
+  · rw [e1, e2]; exact Or.inr ⟨w, w', rfl, rfl⟩
+
+theorem relOut_const_bind {γ : Type} (c : Except ε γ) {G G' : γ → Except ε (List β)}
+    (h : ∀ x, RelOut (G x) (G' x)) : RelOut (c >>= G) (c >>= G') := by
+  cases c with
+  | error w => exact Or.inr ⟨w, w, rfl, rfl⟩
+  | ok x => exact h x
+
 end applike
 
 /-! ## The same solar system with its items listed in another order -/
@@ -238,16 +325,64 @@ theorem app_modsFold (rd : Reader) (x a : Item) (e : Effect) (imm : Bool) (l : L
     App (fun acc => l.foldlM (fun acc m => mkMod cfg rd x a e imm m acc) acc) :=
   app_foldlM _ l fun m _ => app_mkMod rd x a e imm m
 
+/-- The three parts of `effStep` for a running effect `e` of `a` (`imm`: the carrier's penalty immunity): local
+modifiers, projected modifiers per projection target, fleet-boost modifiers per boosted ship. -/
+def effLocal (cfg : Config) (rd : Reader) (x : Item) (tx : ItemType) (attr : Int) (a : Item) (e : Effect)
+    (imm : Bool) (acc : List Mod) : Except Val (List Mod) :=
+  (e.mods.filter fun m => m.tgtAttr == attr && affectsLocal cfg a m x tx).foldlM (init := acc)
+    fun acc m => mkMod cfg rd x a e imm m acc
+
+def effProj (cfg : Config) (rd : Reader) (x : Item) (tx : ItemType) (attr : Int) (a : Item) (e : Effect)
+    (imm : Bool) (acc : List Mod) : Except Val (List Mod) :=
+  (projectionTargets cfg a e).foldlM (init := acc) fun acc tg =>
+    (e.mods.filter fun m => m.domain == 4 && m.tgtAttr == attr && affectsProjected cfg a m tg x tx).foldlM
+      (init := acc) fun acc m => mkMod cfg rd x a e imm m acc
+
+def effBoost (u : Universe) (cfg : Config) (rd : Reader) (x : Item) (tx : ItemType) (attr : Int) (a : Item)
+    (e : Effect) (imm : Bool) (acc : List Mod) : Except Val (List Mod) :=
+  if e.isBuff then
+    (if u.buffs.any (·.tgtAttr == attr) then buffModifiers u rd a else pure []) >>= fun bms =>
+      (boostTargets cfg a.fit).foldlM (init := acc) fun acc tg =>
+        ((bms ++ e.mods.filter (·.domain == 4)).filter fun m =>
+          m.tgtAttr == attr && affectsProjected cfg a m tg x tx).foldlM
+          (init := acc) fun acc m => mkMod cfg rd x a e imm m acc
+  else pure acc
+
+theorem effStep_eq_parts (immune : List Int) (rd : Reader) (x : Item) (tx : ItemType) (attr : Int) (a : Item)
+    (ta : ItemType) (acc : List Mod) (e : Effect) :
+    effStep u cfg immune rd x tx attr a ta acc e =
+      (effLocal cfg rd x tx attr a e (match ta.category with | some c => immune.contains c | none => false) acc >>=
+        fun acc => effProj cfg rd x tx attr a e
+            (match ta.category with | some c => immune.contains c | none => false) acc >>=
+          fun acc => effBoost u cfg rd x tx attr a e
+            (match ta.category with | some c => immune.contains c | none => false) acc) := by
+  unfold effStep effLocal effProj effBoost
+  cases e.isBuff <;> rfl
+
+theorem app_effLocal (rd : Reader) (x : Item) (tx : ItemType) (attr : Int) (a : Item) (e : Effect) (imm : Bool) :
+    App (effLocal cfg rd x tx attr a e imm) := app_modsFold rd x a e imm _
+
+theorem app_effProj (rd : Reader) (x : Item) (tx : ItemType) (attr : Int) (a : Item) (e : Effect) (imm : Bool) :
+    App (effProj cfg rd x tx attr a e imm) :=
+  app_foldlM _ _ fun _ _ => app_modsFold rd x a e imm _
+
+theorem app_effBoost (rd : Reader) (x : Item) (tx : ItemType) (attr : Int) (a : Item) (e : Effect) (imm : Bool) :
+    App (effBoost u cfg rd x tx attr a e imm) := by
+  unfold effBoost
+  cases e.isBuff with
+  | false => exact app_pure
+  | true =>
+    simp only [if_true]
+    exact app_const_bind _ fun bms => app_foldlM _ _ fun tg _ => app_modsFold rd x a e imm _
+
+theorem app_effTail (rd : Reader) (x : Item) (tx : ItemType) (attr : Int) (a : Item) (e : Effect) (imm : Bool) :
+    App (fun acc => effProj cfg rd x tx attr a e imm acc >>= fun acc => effBoost u cfg rd x tx attr a e imm acc) :=
+  app_bind (app_effProj rd x tx attr a e imm) (app_effBoost rd x tx attr a e imm)
+
 theorem app_effStep (immune : List Int) (rd : Reader) (x : Item) (tx : ItemType) (attr : Int) (a : Item)
     (ta : ItemType) (e : Effect) : App (fun acc => effStep u cfg immune rd x tx attr a ta acc e) := by
-  unfold effStep
-  refine app_bind (app_modsFold rd x a e _ _) (app_bind ?_ ?_)
-  · exact app_foldlM _ _ fun tg _ => app_modsFold rd x a e _ _
-  · cases e.isBuff with
-    | false => exact app_pure
-    | true =>
-      simp only [if_true]
-      exact app_const_bind _ fun bms => app_foldlM _ _ fun tg _ => app_modsFold rd x a e _ _
+  simp only [effStep_eq_parts]
+  exact app_bind (app_effLocal rd x tx attr a e _) (app_effTail rd x tx attr a e _)
 
 theorem app_stepG (immune : List Int) (rd : Reader) (x : Item) (tx : ItemType) (attr : Int) (a : Item) :
     App (fun acc => stepG u cfg immune rd x tx attr acc a) := by
@@ -420,25 +555,47 @@ theorem rows_get_perm (E : ItemsPerm cfg cfg') (hU : UniqueIds cfg) (k : Int) (F
   have e2 : y2.id = i := by simpa using congrArg Prod.fst (beq_iff_eq.1 k2)
   rw [eq_of_nodup_map (fun y : Item => y.id) (l := cfg.items) hU hy1 hy2 (e1.trans e2.symm)]
 
-theorem readDep_congr {t t' : Table} (h : ∀ i a, t.get i a = t'.get i a) : readDep u t = readDep u t' := by
+theorem readDep_congr {u' : Universe} (ha : u'.attrs = u.attrs) {t t' : Table} (h : ∀ i a, t.get i a = t'.get i a) :
+    readDep u t = readDep u' t' := by
   funext y a
-  unfold readDep
-  rw [h]
+  unfold readDep attrMeta?
+  rw [h, ha]
 
-theorem evalAll_fold_perm (hwf : RankWF u) (E : ItemsPerm cfg cfg') (hU : UniqueIds cfg) (rest : List AttrMeta) :
+/-- Equal values, or an error answer on both sides. -/
+def RelVal (v v' : Val) : Prop := v = v' ∨ (IsErr v ∧ IsErr v')
+
+theorem RelVal.eq_of_ne_notWF {v v' : Val} (h : RelVal v v') (h1 : v ≠ .notWF) (h2 : v' ≠ .notWF) : v = v' := by
+  rcases h with h | ⟨e1, e2⟩
+  · exact h
+  · rcases e1 with e1 | e1
+    · rcases e2 with e2 | e2
+      · rw [e1, e2]
+      · exact absurd e2 h2
+    · exact absurd e1 h1
+
+/-- **Induction along the rank order**, for two universes with the same attribute list and two configurations
+with permuted item lists whose one-level values agree up to the kind of error (`hval`): the two tables answer
+every look-up alike.  Rank well-formedness of both universes excludes `notWF`, so "up to the kind of error"
+becomes equality at every level. -/
+theorem evalAll_fold_rel {u' : Universe} (hwf : RankWF u) (hwf' : RankWF u') (hattrs : u'.attrs = u.attrs)
+    (E : ItemsPerm cfg cfg') (hU : UniqueIds cfg)
+    (hval : ∀ (rd : Reader) (x : Item) (am : AttrMeta),
+      RelVal (valueOf u cfg immune limited pen rd x am) (valueOf u' cfg' immune limited pen rd x am))
+    (rest : List AttrMeta) :
     ∀ (pre : List AttrMeta) (t t' : Table), u.attrs = pre ++ rest →
       TableOK cfg (pre.map (·.id)) t → TableOK cfg' (pre.map (·.id)) t' → (∀ i a, t.get i a = t'.get i a) →
       ∀ i a, (rest.foldl (tblStep u cfg immune limited pen) t).get i a =
-        (rest.foldl (tblStep u cfg' immune limited pen) t').get i a := by
+        (rest.foldl (tblStep u' cfg' immune limited pen) t').get i a := by
   induction rest with
   | nil => intro _ _ _ _ _ _ h; exact h
   | cons am rest ih =>
     intro pre t t' hsplit hok hok' hget
     rw [List.foldl_cons, List.foldl_cons]
-    have hrd := readDep_congr (u := u) hget
+    have hrd := readDep_congr (u := u) hattrs hget
     have hr := hwf pre am rest hsplit
+    have hr' := hwf' pre am rest (hattrs.trans hsplit)
     have hs1 := evalAll_step hok immune limited pen am hr
-    have hs2 := evalAll_step hok' immune limited pen am hr
+    have hs2 := evalAll_step hok' immune limited pen am hr'
     refine ih (pre ++ [am]) _ _ (by simp [hsplit]) (by simpa [tblStep] using hs1)
       (by simpa [tblStep] using hs2) fun i a => ?_
     unfold tblStep
@@ -446,17 +603,26 @@ theorem evalAll_fold_perm (hwf : RankWF u) (E : ItemsPerm cfg cfg') (hU : Unique
     congr 1
     refine rows_get_perm E hU am.id _ _ (fun x hx => ?_) i a
     have n1 := valueOf_ne_notWF hok immune limited pen hx am hr
-    have n2 := valueOf_ne_notWF hok' immune limited pen (E.items.mem_iff.2 hx) am hr
+    have n2 := valueOf_ne_notWF hok' immune limited pen (E.items.mem_iff.2 hx) am hr'
     rw [← hrd] at n2 ⊢
-    exact valueOf_items_perm_eq E hU immune limited pen _ x am n1 n2
+    exact (hval _ x am).eq_of_ne_notWF n1 n2
+
+theorem evalAll_get_rel {u' : Universe} (hwf : RankWF u) (hwf' : RankWF u') (hattrs : u'.attrs = u.attrs)
+    (E : ItemsPerm cfg cfg') (hU : UniqueIds cfg)
+    (hval : ∀ (rd : Reader) (x : Item) (am : AttrMeta),
+      RelVal (valueOf u cfg immune limited pen rd x am) (valueOf u' cfg' immune limited pen rd x am))
+    (i : Nat) (a : Int) :
+    (evalAll u cfg immune limited pen).get i a = (evalAll u' cfg' immune limited pen).get i a := by
+  rw [evalAll_eq_foldl, evalAll_eq_foldl, hattrs]
+  exact evalAll_fold_rel hwf hwf' hattrs E hU hval u.attrs [] [] [] rfl
+    ⟨fun _ h => (by cases h), fun _ _ _ h => (by cases h)⟩ ⟨fun _ h => (by cases h), fun _ _ _ h => (by cases h)⟩
+    (fun _ _ => rfl) i a
 
 /-- The tables of two configurations that differ in the order of their items only answer every look-up alike. -/
 theorem evalAll_get_perm (hwf : rankWF u = true) (E : ItemsPerm cfg cfg') (hU : UniqueIds cfg) (i : Nat) (a : Int) :
-    (evalAll u cfg immune limited pen).get i a = (evalAll u cfg' immune limited pen).get i a := by
-  rw [evalAll_eq_foldl, evalAll_eq_foldl]
-  exact evalAll_fold_perm ((rankWF_iff u).1 hwf) E hU u.attrs [] [] [] rfl
-    ⟨fun _ h => (by cases h), fun _ _ _ h => (by cases h)⟩ ⟨fun _ h => (by cases h), fun _ _ _ h => (by cases h)⟩
-    (fun _ _ => rfl) i a
+    (evalAll u cfg immune limited pen).get i a = (evalAll u cfg' immune limited pen).get i a :=
+  evalAll_get_rel ((rankWF_iff u).1 hwf) ((rankWF_iff u).1 hwf) rfl E hU
+    (fun rd x am => valueOf_items_perm E hU immune limited pen rd x am) i a
 
 /-- With unique attribute and item ids every entry of the table is what the look-up of its key returns. -/
 theorem entry_is_get (hun : UniqueAttrs u) (hc : UniqueIds cfg) {e : (Nat × Int) × Val}
@@ -594,5 +760,288 @@ example : ∃ l l', gather ordU ordCfg specImmune ordRd ordShip ⟨1, none, some
   · have e1 : (gather ordU ordCfg specImmune ordRd ordShip ⟨1, none, some 6, none, [(37, 100)], [], []⟩
       37).toOption.map (·.map (·.value)) = some [3/2, 2] := by decide +kernel
     rw [h1] at e1; cases e1
+
+/-! ## The order of an effect's modifier list and of a type's effect list -/
+
+section reorder
+variable {u : Universe} {cfg : Config} {immune limited : List Int} {pen : Nat → Rat}
+
+/-- Effect `e` with its modifiers re-listed as `σ e`. -/
+def reMods (σ : Effect → List Modifier) (e : Effect) : Effect := { e with mods := σ e }
+/-- The universe with the modifier list of every effect re-listed. -/
+def reorderMods (σ : Effect → List Modifier) (u : Universe) : Universe :=
+  { u with effects := u.effects.map (reMods σ) }
+/-- Item type `ty` with its effect ids re-listed as `τ ty`. -/
+def reEffs (τ : ItemType → List Int) (ty : ItemType) : ItemType := { ty with effects := τ ty }
+/-- The universe with the effect list of every item type re-listed. -/
+def reorderEffs (τ : ItemType → List Int) (u : Universe) : Universe :=
+  { u with types := u.types.map (reEffs τ) }
+
+/-! ### Modifier lists -/
+
+theorem effect?_reorderMods (σ : Effect → List Modifier) (i : Int) :
+    effect? (reorderMods σ u) i = (effect? u i).map (reMods σ) := by
+  unfold effect? reorderMods
+  rw [List.find?_map]
+  rfl
+
+theorem runningEffects_reorderMods (σ : Effect → List Modifier) (a : Item) :
+    runningEffects (reorderMods σ u) cfg a = (runningEffects u cfg a).map (reMods σ) := by
+  unfold runningEffects
+  show (match itemType? u cfg a with | none => [] | some ty => _) = _
+  cases itemType? u cfg a with
+  | none => rfl
+  | some ty =>
+    dsimp only
+    have h1 : ty.effects.filterMap (effect? (reorderMods σ u)) =
+        (ty.effects.filterMap (effect? u)).map (reMods σ) := by
+      rw [List.map_filterMap]
+      exact List.filterMap_congr fun i _ => effect?_reorderMods σ i
+    rw [h1, List.find?_map, List.filter_map]
+    cases hf : (ty.effects.filterMap (effect? u)).find? ((fun x => x.id == 16) ∘ reMods σ) with
+    | none =>
+      have hf' : (ty.effects.filterMap (effect? u)).find? (fun x => x.id == 16) = none := hf
+      rw [hf']; rfl
+    | some oe =>
+      have hf' : (ty.effects.filterMap (effect? u)).find? (fun x => x.id == 16) = some oe := hf
+      rw [hf']; rfl
+
+theorem mem_readable_reorderMods {σ : Effect → List Modifier} (hσ : ∀ e ∈ u.effects, (σ e).Perm e.mods)
+    {am : AttrMeta} {a : Int} (h : a ∈ readable (reorderMods σ u) am) : a ∈ readable u am := by
+  unfold readable gatherReads at h ⊢
+  simp only [reorderMods, List.mem_append, List.mem_flatMap, List.mem_map, List.mem_filterMap,
+    exists_exists_and_eq_and] at h ⊢
+  rcases h with h | (⟨e, he, m, hm, rfl⟩ | ⟨e, he, h⟩) | h
+  · exact Or.inl h
+  · refine Or.inr (Or.inl (Or.inl ⟨e, he, m, ?_, rfl⟩))
+    have hm' : m ∈ (reMods σ e).mods.filter (·.tgtAttr == am.id) := hm
+    rw [List.mem_filter] at hm' ⊢
+    exact ⟨(hσ e he).mem_iff.1 hm'.1, hm'.2⟩
+  · refine Or.inr (Or.inl (Or.inr ⟨e, he, ?_⟩))
+    have hany : (reMods σ e).mods.any (·.tgtAttr == am.id) = e.mods.any (·.tgtAttr == am.id) :=
+      any_perm _ (hσ e he)
+    have h' : (if (reMods σ e).mods.any (·.tgtAttr == am.id) || ((reMods σ e).isBuff &&
+        u.buffs.any (·.tgtAttr == am.id)) then (reMods σ e).resistAttr.filter (· != 0) else none) = some a := h
+    rw [hany] at h'
+    exact h'
+  · exact Or.inr (Or.inr h)
+
+theorem rankWF_reorderMods {σ : Effect → List Modifier} (hσ : ∀ e ∈ u.effects, (σ e).Perm e.mods)
+    (hwf : RankWF u) : RankWF (reorderMods σ u) :=
+  fun pre am post hs a ha hsome => hwf pre am post hs a (mem_readable_reorderMods hσ ha) hsome
+
+theorem relOut_modsFold (rd : Reader) (x a : Item) (e e' : Effect) (imm : Bool) {l l' : List Modifier}
+    (hp : l.Perm l') (hr : e'.resistAttr = e.resistAttr) :
+    RelOut (l.foldlM (fun acc m => mkMod cfg rd x a e imm m acc) [])
+      (l'.foldlM (fun acc m => mkMod cfg rd x a e' imm m acc) []) := by
+  refine relOut_foldlM hp (fun m _ => app_mkMod rd x a e imm m) (fun m _ => app_mkMod rd x a e' imm m)
+    fun m _ => RelOut.of_eq ?_
+  unfold mkMod resistOf
+  rw [hr]
+
+/-- One running effect: re-listing its modifiers permutes what it contributes. -/
+theorem relOut_effStep_reMods {σ : Effect → List Modifier} {e : Effect} (he : (σ e).Perm e.mods)
+    (immune : List Int) (rd : Reader) (x : Item) (tx : ItemType) (attr : Int) (a : Item) (ta : ItemType) :
+    RelOut (effStep u cfg immune rd x tx attr a ta [] e)
+      (effStep (reorderMods σ u) cfg immune rd x tx attr a ta [] (reMods σ e)) := by
+  rw [effStep_eq_parts, effStep_eq_parts]
+  refine relOut_bind (app_effTail rd x tx attr a e _) (app_effTail rd x tx attr a (reMods σ e) _) ?_
+    (relOut_bind (app_effBoost rd x tx attr a e _) (app_effBoost rd x tx attr a (reMods σ e) _) ?_ ?_)
+  · exact relOut_modsFold rd x a e (reMods σ e) _ (he.symm.filter _) rfl
+  · exact relOut_foldlM (List.Perm.refl _) (fun _ _ => app_modsFold rd x a e _ _)
+      (fun _ _ => app_modsFold rd x a (reMods σ e) _ _)
+      fun tg _ => relOut_modsFold rd x a e (reMods σ e) _ (he.symm.filter _) rfl
+  · unfold effBoost
+    show RelOut (if e.isBuff then _ else _) (if e.isBuff then _ else _)
+    cases e.isBuff with
+    | false => exact RelOut.refl _
+    | true =>
+      simp only [if_true]
+      refine relOut_const_bind _ fun bms => ?_
+      exact relOut_foldlM (List.Perm.refl _) (fun _ _ => app_modsFold rd x a e _ _)
+        (fun _ _ => app_modsFold rd x a (reMods σ e) _ _)
+        fun tg _ => relOut_modsFold rd x a e (reMods σ e) _
+          (((List.Perm.refl bms).append (he.symm.filter _)).filter _) rfl
+
+theorem relOut_gather_reorderMods {σ : Effect → List Modifier} (hσ : ∀ e ∈ u.effects, (σ e).Perm e.mods)
+    (immune : List Int) (rd : Reader) (x : Item) (tx : ItemType) (attr : Int) :
+    RelOut (gather u cfg immune rd x tx attr) (gather (reorderMods σ u) cfg immune rd x tx attr) := by
+  rw [gather_eq_stepG, gather_eq_stepG]
+  refine relOut_foldlM (List.Perm.refl _) (fun a _ => app_stepG immune rd x tx attr a)
+    (fun a _ => app_stepG immune rd x tx attr a) fun a _ => ?_
+  unfold stepG
+  show RelOut (match itemType? u cfg a with | none => _ | some ta => _)
+    (match itemType? u cfg a with | none => _ | some ta => _)
+  cases itemType? u cfg a with
+  | none => exact RelOut.refl _
+  | some ta =>
+    dsimp only
+    rw [runningEffects_reorderMods, List.foldlM_map]
+    exact relOut_foldlM (List.Perm.refl _) (fun e _ => app_effStep immune rd x tx attr a ta e)
+      (fun e _ => app_effStep immune rd x tx attr a ta (reMods σ e))
+      fun e he => relOut_effStep_reMods (hσ e (runningEffects_mem he)) immune rd x tx attr a ta
+
+/-! ### Effect lists of item types -/
+
+theorem type?_reorderEffs (τ : ItemType → List Int) (t : Int) :
+    type? (reorderEffs τ u) t = (type? u t).map (reEffs τ) := by
+  unfold type? reorderEffs
+  rw [List.find?_map]
+  rfl
+
+theorem itemType?_reorderEffs (τ : ItemType → List Int) (a : Item) :
+    itemType? (reorderEffs τ u) cfg a = (itemType? u cfg a).map (reEffs τ) := by
+  unfold itemType?
+  rw [type?_reorderEffs]
+  cases cfg.hasSource <;> rfl
+
+theorem itemType?_mem {a : Item} {ty : ItemType} (h : itemType? u cfg a = some ty) : ty ∈ u.types := by
+  unfold itemType? at h
+  split at h
+  · exact List.mem_of_find?_eq_some h
+  · cases h
+
+theorem effect?_id {i : Int} {e : Effect} (h : effect? u i = some e) : e.id = i := by
+  have := List.find?_some h; simpa using this
+
+theorem runningEffects_reorderEffs {τ : ItemType → List Int} (hτ : ∀ ty ∈ u.types, (τ ty).Perm ty.effects)
+    (a : Item) : (runningEffects (reorderEffs τ u) cfg a).Perm (runningEffects u cfg a) := by
+  unfold runningEffects
+  rw [itemType?_reorderEffs]
+  cases hty : itemType? u cfg a with
+  | none => exact List.Perm.refl _
+  | some ty =>
+    have hp : ((τ ty).filterMap (effect? u)).Perm (ty.effects.filterMap (effect? u)) :=
+      (hτ ty (itemType?_mem hty)).filterMap _
+    have hfind : ((τ ty).filterMap (effect? u)).find? (·.id == 16) =
+        (ty.effects.filterMap (effect? u)).find? (·.id == 16) := by
+      refine find?_perm_unique hp _ fun e1 h1 e2 h2 k1 k2 => ?_
+      obtain ⟨i1, _, hi1⟩ := List.mem_filterMap.1 h1
+      obtain ⟨i2, _, hi2⟩ := List.mem_filterMap.1 h2
+      have j1 : i1 = 16 := (effect?_id hi1).symm.trans (beq_iff_eq.1 k1)
+      have j2 : i2 = 16 := (effect?_id hi2).symm.trans (beq_iff_eq.1 k2)
+      rw [j1] at hi1; rw [j2] at hi2
+      exact Option.some.inj (hi1.symm.trans hi2)
+    show (((τ ty).filterMap (effect? u)).filter fun e => runsEffect a ty e
+        (match ((τ ty).filterMap (effect? u)).find? (·.id == 16) with
+          | some oe => runsEffect a ty oe false
+          | none => false)).Perm _
+    rw [hfind]
+    exact hp.filter _
+
+theorem relOut_gather_reorderEffs {τ : ItemType → List Int} (hτ : ∀ ty ∈ u.types, (τ ty).Perm ty.effects)
+    (immune : List Int) (rd : Reader) (x : Item) (tx : ItemType) (attr : Int) :
+    RelOut (gather u cfg immune rd x tx attr)
+      (gather (reorderEffs τ u) cfg immune rd x (reEffs τ tx) attr) := by
+  rw [gather_eq_stepG, gather_eq_stepG]
+  refine relOut_foldlM (List.Perm.refl _) (fun a _ => app_stepG immune rd x tx attr a)
+    (fun a _ => app_stepG immune rd x (reEffs τ tx) attr a) fun a _ => ?_
+  unfold stepG
+  rw [itemType?_reorderEffs]
+  cases itemType? u cfg a with
+  | none => exact RelOut.refl _
+  | some ta =>
+    show RelOut _ ((runningEffects (reorderEffs τ u) cfg a).foldlM
+      (effStep (reorderEffs τ u) cfg immune rd x (reEffs τ tx) attr a (reEffs τ ta)) [])
+    exact relOut_foldlM (runningEffects_reorderEffs hτ a).symm
+      (fun e _ => app_effStep immune rd x tx attr a ta e)
+      (fun e _ => app_effStep immune rd x (reEffs τ tx) attr a (reEffs τ ta) e)
+      fun e _ => RelOut.of_eq rfl
+
+/-! ### One rank level, and the table -/
+
+theorem gather_err_kind {immune : List Int} {rd : Reader} {x : Item} {tx : ItemType} {attr : Int} {w : Val}
+    (h : gather u cfg immune rd x tx attr = .error w) : IsErr w := by
+  rw [gather_eq_stepG] at h
+  exact foldlM_except_err IsErr _ _ [] w (fun _ _ _ _ hf => stepG_err_kind hf) h
+
+/-- From related gatherings to related values. -/
+theorem relVal_valueOf {u' : Universe} {cfg' : Config} (ψ : ItemType → ItemType)
+    (rd : Reader) (x : Item) (am : AttrMeta)
+    (hty : itemType? u' cfg' x = (itemType? u cfg x).map ψ)
+    (hb : ∀ tx, World.baseOf (ψ tx) am = World.baseOf tx am)
+    (hg : ∀ tx, RelOut (gather u cfg immune rd x tx am.id) (gather u' cfg' immune rd x (ψ tx) am.id)) :
+    RelVal (valueOf u cfg immune limited pen rd x am) (valueOf u' cfg' immune limited pen rd x am) := by
+  rw [valueOf_eq, valueOf_eq, hty]
+  split
+  · exact Or.inl rfl
+  · cases itemType? u cfg x with
+    | none => exact Or.inl rfl
+    | some tx =>
+      dsimp only [Option.map]
+      rw [hb tx]
+      cases World.baseOf tx am with
+      | none => exact Or.inl rfl
+      | some b =>
+        rcases hg tx with ⟨l, l', h1, h2, hp⟩ | ⟨w, w', h1, h2⟩
+        · left
+          simp only [h1, h2, calculate_perm' pen am.stackable am.hig b hp]
+        · simp only [h1, h2]
+          exact Or.inr ⟨gather_err_kind h1, gather_err_kind h2⟩
+
+/-- **The order of the modifier list of an effect is irrelevant**: for any re-listing `σ` of the modifiers of
+the universe's effects (`hσ`: a permutation, effect by effect) the from-scratch tables answer every read alike. -/
+theorem modifier_order_irrelevant_world (hwf : rankWF u = true) {σ : Effect → List Modifier}
+    (hσ : ∀ e ∈ u.effects, (σ e).Perm e.mods) (hU : UniqueIds cfg) (x : Item) (a : Int) :
+    World.read (evalAll u cfg immune limited pen) x a =
+      World.read (evalAll (reorderMods σ u) cfg immune limited pen) x a := by
+  unfold World.read
+  rw [evalAll_get_rel ((rankWF_iff u).1 hwf) (rankWF_reorderMods hσ ((rankWF_iff u).1 hwf)) rfl
+    (ItemsPerm.refl cfg) hU fun rd y am => relVal_valueOf id rd y am
+      (by rw [Option.map_id]; rfl) (fun _ => rfl) fun tx => relOut_gather_reorderMods hσ immune rd y tx am.id]
+
+/-- **The order of the effect list of an item type is irrelevant**: for any re-listing `τ` of the effect ids of
+the universe's item types (`hτ`: a permutation, type by type) the from-scratch tables answer every read alike. -/
+theorem effect_order_irrelevant_world (hwf : rankWF u = true) {τ : ItemType → List Int}
+    (hτ : ∀ ty ∈ u.types, (τ ty).Perm ty.effects) (hU : UniqueIds cfg) (x : Item) (a : Int) :
+    World.read (evalAll u cfg immune limited pen) x a =
+      World.read (evalAll (reorderEffs τ u) cfg immune limited pen) x a := by
+  unfold World.read
+  rw [evalAll_get_rel ((rankWF_iff u).1 hwf) (u' := reorderEffs τ u) ((rankWF_iff u).1 hwf) rfl
+    (ItemsPerm.refl cfg) hU fun rd y am => relVal_valueOf (reEffs τ) rd y am
+      (itemType?_reorderEffs τ y) (fun _ => rfl) fun tx => relOut_gather_reorderEffs hτ immune rd y tx am.id]
+
+/-- **All three iteration orders at once.**  The items of the configuration listed in another order (`E`), the
+modifiers of every effect re-listed (`σ`), the effect ids of every item type re-listed (`τ`): the from-scratch
+tables answer every public read alike. -/
+theorem iteration_order_irrelevant_world (hwf : rankWF u = true) {cfg' : Config} (E : ItemsPerm cfg cfg')
+    (hU : UniqueIds cfg) {σ : Effect → List Modifier} (hσ : ∀ e ∈ u.effects, (σ e).Perm e.mods)
+    {τ : ItemType → List Int} (hτ : ∀ ty ∈ u.types, (τ ty).Perm ty.effects) (x : Item) (a : Int) :
+    World.read (evalAll u cfg immune limited pen) x a =
+      World.read (evalAll (reorderEffs τ (reorderMods σ u)) cfg' immune limited pen) x a := by
+  rw [gather_order_irrelevant_world hwf E hU, modifier_order_irrelevant_world hwf hσ (E.uniqueIds hU)]
+  exact effect_order_irrelevant_world ((rankWF_iff _).2 (rankWF_reorderMods hσ ((rankWF_iff u).1 hwf)))
+    (u := reorderMods σ u) hτ (E.uniqueIds hU) x a
+
+end reorder
+
+/-! ### Non-vacuity: `settleU` with every list reversed
+
+The universe of `Lemmas/MicroSettle.lean` (a module with two running projectable effects, each with a local and a
+projected modifier on the ship's attribute 37) with the modifier list of both effects, the effect list of the
+module type and the item list of the configuration reversed: the modifications are gathered in the order of
+operators 5, 7, 4, 6 instead of 4, 6, 5, 7, the tables list their rows differently, the reads agree: 225. -/
+
+def settleURev : Universe :=
+  reorderEffs (fun ty => ty.effects.reverse) (reorderMods (fun e => e.mods.reverse) settleU)
+def settleCfgRev : Config := { settleCfg with items := settleCfg.items.reverse }
+
+example :
+    (gather settleU settleCfg specImmune settleRd settleShip
+      ⟨1, none, some 6, none, [(37, 100)], [], []⟩ 37).toOption.map (·.map (·.op)) = some [4, 6, 5, 7] ∧
+    (gather settleURev settleCfgRev specImmune settleRd settleShip
+      ⟨1, none, some 6, none, [(37, 100)], [], []⟩ 37).toOption.map (·.map (·.op)) = some [5, 7, 4, 6] ∧
+    evalAll settleU settleCfg specImmune specLimited (fun _ => 1) ≠
+      evalAll settleURev settleCfgRev specImmune specLimited (fun _ => 1) := by
+  refine ⟨by decide +kernel, by decide +kernel, by decide +kernel⟩
+
+example :
+    World.read (evalAll settleU settleCfg specImmune specLimited (fun _ => 1)) settleShip 37 =
+      World.read (evalAll settleURev settleCfgRev specImmune specLimited (fun _ => 1)) settleShip 37 ∧
+    World.read (evalAll settleURev settleCfgRev specImmune specLimited (fun _ => 1)) settleShip 37 = .ok 225 :=
+  ⟨iteration_order_irrelevant_world (u := settleU) (cfg := settleCfg) (cfg' := settleCfgRev) (by decide)
+    ⟨List.reverse_perm settleCfg.items, rfl, rfl⟩
+    (by unfold UniqueIds; decide) (fun e _ => List.reverse_perm e.mods) (fun ty _ => List.reverse_perm ty.effects)
+    settleShip 37, by decide +kernel⟩
 
 end Eos.C08World
